@@ -1,12 +1,93 @@
 /* Unit harness for the evaluator: real parser (config_parse), real expr_eval,
  * matches_interpolate, matches_inspect.  Every request runs in a forked child so
  * that parser globals start fresh and a crash is reported as a FAULT line. */
+#include "config.h"	/* first, as in every module: it selects the feature-test macros the system headers obey */
+#include <errno.h>
+#include <signal.h>
+#include <unistd.h>
+#include <sys/resource.h>
+#include <sys/wait.h>
 #include "message.c"
 #include "maildir.c"
 #include "time.c"
 #include "match.c"
 #include "expr.c"
+/*
+ * Injectable outcomes of the commands run by `command` conditions (and exec actions): util.c's exec() is compiled as it
+ * is - its fork, dup2, waitpid and status mapping run for real - but a program named "vstatus:..." is not looked up by
+ * execvp(3); the child ends, or the call fails, as the name says:
+ *
+ *   vstatus:exit:N     the program runs and exits with status N (0..255)
+ *   vstatus:signal:N   the program runs and is killed by signal N (no core file)
+ *   vstatus:errno:E    execvp fails with errno E (ENOENT, EACCES, ENOTDIR, ENOEXEC, ELOOP, ENOMEM, E2BIG, ETXTBSY)
+ *   vstatus:fork       fork fails with EAGAIN
+ *   vstatus:waitpid    the child runs and exits 0 but waitpid fails with ECHILD
+ *
+ * Every other name goes to the real execvp (true, false, a missing program).  The model side (Driver/Main.lean
+ * `commandOracle`) derives the value of exec() for these names from Model.execStatus.
+ */
+static int hx_forkfail, hx_waitfail;
+static pid_t hx_fork(void);
+static pid_t hx_waitpid(pid_t, int *, int);
+static int hx_execvp(const char *, char *const []);
+#define exec hx_util_exec
+#define fork hx_fork
+#define waitpid hx_waitpid
+#define execvp hx_execvp
 #include "util.c"
+#undef exec
+#undef fork
+#undef waitpid
+#undef execvp
+
+static pid_t hx_fork(void) {
+	if (hx_forkfail) { errno = EAGAIN; return -1; }
+	return fork();
+}
+
+static pid_t hx_waitpid(pid_t pid, int *status, int options) {
+	pid_t r = waitpid(pid, status, options);
+	if (hx_waitfail) { errno = ECHILD; return -1; }
+	return r;
+}
+
+static int hx_execvp(const char *file, char *const argv[]) {
+	static const struct { const char *name; int no; } errs[] = {
+		{ "ENOENT", ENOENT }, { "EACCES", EACCES }, { "ENOTDIR", ENOTDIR }, { "ENOEXEC", ENOEXEC }, { "ELOOP", ELOOP },
+		{ "ENOMEM", ENOMEM }, { "E2BIG", E2BIG }, { "ETXTBSY", ETXTBSY },
+	};
+	size_t i;
+	if (strncmp(file, "vstatus:", 8) != 0)
+		return execvp(file, argv);
+	file += 8;
+	if (strncmp(file, "exit:", 5) == 0)
+		_exit(atoi(file + 5));
+	if (strncmp(file, "signal:", 7) == 0) {
+		struct rlimit rl = { 0, 0 };
+		int sig = atoi(file + 7);
+		setrlimit(RLIMIT_CORE, &rl);
+		signal(sig, SIG_DFL);
+		kill(getpid(), sig);
+		_exit(98);	/* the signal did not terminate the process */
+	}
+	if (strncmp(file, "errno:", 6) == 0) {
+		for (i = 0; i < sizeof(errs) / sizeof(errs[0]); i++)
+			if (strcmp(file + 6, errs[i].name) == 0) { errno = errs[i].no; return -1; }
+	}
+	if (strcmp(file, "fork") == 0 || strcmp(file, "waitpid") == 0)
+		_exit(0);
+	errno = ENOENT;
+	return -1;
+}
+
+int exec(char *const *argv, int fdin) {
+	int r;
+	hx_forkfail = argv[0] != NULL && strcmp(argv[0], "vstatus:fork") == 0;
+	hx_waitfail = argv[0] != NULL && strcmp(argv[0], "vstatus:waitpid") == 0;
+	r = hx_util_exec(argv, fdin);
+	hx_forkfail = hx_waitfail = 0;
+	return r;
+}
 #include "macro.c"
 #include "conf.h"
 #include "proto.h"
@@ -231,6 +312,58 @@ static void op_eval(struct arg *a, int n, FILE *out) {
 	unlink(fpath);
 }
 
+/* inspect <home> <confpath> <key> <val> <lno> <subs: beg/end+beg/end..., x/x for an unset group>
+ * -> hex of what the real expr_inspect() prints for a header entry with these sub-matches (locale: LC_CTYPE of the environment) */
+static void op_inspect(struct arg *a, int n, FILE *out) {
+	struct environment env;
+	struct expr ex;
+	struct match mh;
+	char *buf = NULL, *tok, *save = NULL;
+	size_t len = 0, cap = 0;
+	FILE *mem, *savefh;
+	(void)n;
+	memset(&env, 0, sizeof(env));
+	memset(&ex, 0, sizeof(ex));
+	memset(&mh, 0, sizeof(mh));
+	strlcpy(env.ev_home, (const char *)a[0].p, sizeof(env.ev_home));
+	env.ev_confpath = (const char *)a[1].p;
+	env.ev_options = OPTION_DRYRUN;
+	ex.ex_type = EXPR_TYPE_HEADER;
+	ex.ex_flags = EXPR_FLAG_INSPECT;
+	ex.ex_lno = (unsigned int)strtoul((const char *)a[4].p, NULL, 10);
+	mh.mh_expr = &ex;
+	mh.mh_key = (char *)a[2].p;
+	mh.mh_val = (char *)a[3].p;
+	for (tok = strtok_r((char *)a[5].p, "+", &save); tok != NULL; tok = strtok_r(NULL, "+", &save)) {
+		char *sl = strchr(tok, '/');
+		if (sl == NULL) { fputs("BADOP", out); return; }
+		if (mh.mh_nmatches == cap) {
+			cap = cap ? 2 * cap : 4;
+			mh.mh_matches = realloc(mh.mh_matches, cap * sizeof(*mh.mh_matches));
+		}
+		mh.mh_matches[mh.mh_nmatches].m_str = NULL;
+		if (tok[0] == 'x') {
+			mh.mh_matches[mh.mh_nmatches].m_beg = (size_t)-1;
+			mh.mh_matches[mh.mh_nmatches].m_end = (size_t)-1;
+		} else {
+			mh.mh_matches[mh.mh_nmatches].m_beg = (size_t)strtoul(tok, NULL, 10);
+			mh.mh_matches[mh.mh_nmatches].m_end = (size_t)strtoul(sl + 1, NULL, 10);
+		}
+		mh.mh_nmatches++;
+	}
+	mem = open_memstream(&buf, &len);
+	savefh = stdout;
+	fflush(stdout);
+	stdout = mem;
+	expr_inspect(&ex, &mh, &env);
+	fflush(mem);
+	stdout = savefh;
+	fclose(mem);
+	puthex(out, buf, len);
+	free(buf);
+	free(mh.mh_matches);
+}
+
 /* ast <conf> <home>: every block of the configuration as the real parser built it */
 static void op_ast(struct arg *a, int n, FILE *out) {
 	struct config_list cl;
@@ -323,6 +456,7 @@ static void op_small(const char *op, struct arg *a, int n, FILE *out) {
 static void handle(const char *op, struct arg *a, int n, FILE *out) {
 	if (strcmp(op, "eval") == 0 && n >= 6) op_eval(a, n, out);
 	else if (strcmp(op, "ast") == 0 && n == 2) op_ast(a, n, out);
+	else if (strcmp(op, "inspect") == 0 && n == 6) op_inspect(a, n, out);
 	else if (strcmp(op, "eval") != 0) op_small(op, a, n, out);
 	else fputs("BADOP", out);
 }
@@ -354,6 +488,7 @@ int main(void) {
 			if (n < 0) fputs("BADREQ", stdout); else handle(op, args, n, stdout);
 			fputc('\n', stdout);
 			fflush(stdout);
+			HARNESS_GCOV_DUMP();
 			_exit(0);
 		}
 		waitpid(pid, &status, 0);
